@@ -296,3 +296,49 @@ Fixpoint sched_returns (p : params) (n : nat) (it : N) (us : N * float) : res (l
 Definition sched_init (p : params) : res (N * float) :=
   let s0 := of_int64 (p_init p) in
   do u <- f2u64 s0; Ok (u, s0).
+
+(* iteration of the k-th return-to-base (k >= 1): the sum of the first k countdowns *)
+Fixpoint ret_iter (p : params) (k : nat) : res N :=
+  match k with
+  | O => Ok 0%N
+  | S k' => do t <- ret_iter p k'; do c <- sched_countdown p k'; Ok (t + c)%N
+  end.
+
+(* boolean hypotheses of the schedule theorems: 1 <= init, min <= 2^53 (float64(int64) exact),
+   0 <= factor <= 1 (not NaN) *)
+Definition params_ok (p : params) : bool :=
+  exact_int_range (p_init p) && exact_int_range (p_min p) && factor_in_range (p_factor p).
+
+(* states reachable from s0 in exactly n iterations (TryRandomChange; CoolDown), for ANY inputs *)
+Inductive reach (p : params) (s0 : st) : nat -> st -> Prop :=
+| reach_0 : reach p s0 O s0
+| reach_S n s i o s' : reach p s0 n s -> iteration p s i = Ok (o, s') -> reach p s0 (S n) s'.
+
+(* ---- vocabulary of the property statements (Properties/C06.v) ---- *)
+
+(* two solutions with the same action set *)
+Definition same_acts (x c : entry) : Prop := acts_eqb (e_acts x) (e_acts c) = true.
+
+(* "the solution set stores the candidate or already holds its action set" *)
+Definition stored_or_held (v : verdict) : bool :=
+  match v with
+  | StoredWithNoDominanceDetected | StoredReplacingDominatedEntries
+  | RejectedWithDuplicateEntryDetected => true
+  | _ => false
+  end.
+
+Definition is_some {A} (o : option A) : bool := match o with Some _ => true | None => false end.
+
+(* after n iterations: k returns have happened, the last at iteration t = sum of the first k countdowns;
+   the next is due at t + c with c = countdown_k; the unsigned counter holds what is left of it *)
+Definition sched_inv (p : params) (n : nat) (s : st) : Prop :=
+  exists k t c,
+    ret_iter p k = Ok t /\ sched_countdown p k = Ok c
+    /\ (t <= N.of_nat n < t + c)%N
+    /\ until s = (t + c - N.of_nat n)%N
+    /\ stepf s = sched_step p k
+    /\ iter s = (N.of_nat n + 1)%N
+    /\ last_rtb s = t.
+
+(* all decision-variable vectors have one length d (one model: d decision variables) *)
+Definition wf_len (d : nat) (e : entry) : Prop := length (e_vec e) = d.
